@@ -66,6 +66,10 @@ type NodeOpts struct {
 	WALRotateInterval int
 	DisableVarComp    bool
 	Triggers          []*trigger.Matcher
+	// SecondaryNode: a further node co-hosted in the same simulation (replica):
+	// process-wide state (executor.ThisInstance, the have-WAL-writer flag) is
+	// left alone.
+	SecondaryNode bool
 }
 
 // Node is one running marketstore instance (real wiring via internal/di).
@@ -90,6 +94,20 @@ func (e *StartError) Error() string { return fmt.Sprintf("startup failed: %v", e
 // StartNode builds a node on simos.Cur under root, running startup recovery.
 // Panics and log.Fatal during startup are returned as *StartError.
 func StartNode(root string, o NodeOpts) (n *Node, err error) {
+	return startNodeWith(root, o, nil)
+}
+
+// nodeBuild is handed to a startNodeWith hook before the WAL is initialised.
+type nodeBuild struct {
+	c *di.Container
+}
+
+var nodesStarted int
+
+// startNodeWith is StartNode with a hook that runs after the container exists
+// and before GetInitWALFile (REPL: inject the replication sender). Only the
+// first node of a simulation resets the process-wide state.
+func startNodeWith(root string, o NodeOpts, hook func(nb *nodeBuild)) (n *Node, err error) {
 	defer func() {
 		if r := recover(); r != nil {
 			n = nil
@@ -104,9 +122,14 @@ func StartNode(root string, o NodeOpts) (n *Node, err error) {
 	cfg.DisableVariableCompression = o.DisableVarComp
 	cfg.StartTime = simrt.Now()
 	utils.InstanceConfig = *cfg
-	executor.ThisInstance = nil
-	executor.VerifResetGlobals() // a fresh process has no WAL writer yet
+	if !o.SecondaryNode {
+		executor.ThisInstance = nil
+		executor.VerifResetGlobals() // a fresh process has no WAL writer yet
+	}
 	c := di.NewContainer(cfg)
+	if hook != nil {
+		hook(&nodeBuild{c: c})
+	}
 	if o.Triggers != nil {
 		c.InjectTriggerMatchers(o.Triggers)
 	} else {
